@@ -400,7 +400,17 @@ func runJournalMut(c *pbt.Case, p JournalMutPlan) {
 		oldSize = before.Size()
 	}
 
+	// every page LiteFS writes while it recovers must lie inside the database: at
+	// most the largest of the old file size, the committed sizes and the original
+	// size the journal header names
+	var maxPgno uint32
+	litefs.SetVerifStepHook(func(db *litefs.DB, kind string, pgno uint32, internal bool) {
+		if kind == "write" && pgno > maxPgno {
+			maxPgno = pgno
+		}
+	})
 	n2, failure := openGuarded(d2)
+	litefs.SetVerifStepHook(nil)
 	// An error return is acceptable for a corrupt journal; a panic or a hang is not.
 	if len(failure) >= 5 && (failure[:5] == "panic" || failure[:4] == "hang") {
 		c.Failf("C17/journal-bytes/"+map[bool]string{true: "panic", false: "hang"}[failure[:5] == "panic"], "journal of %d bytes (%d mutations, raw=%v) after cut at op %d: Store.Open: %s", len(journal), len(p.Mutations), p.Raw != nil, limit, failure)
@@ -424,6 +434,9 @@ func runJournalMut(c *pbt.Case, p JournalMutPlan) {
 			if v := int64(binary.BigEndian.Uint32(journal[16:])) * int64(p.PageSize); v > bound && v <= 1<<31 {
 				bound = v
 			}
+		}
+		if failure == "" && int64(maxPgno)*int64(p.PageSize) > bound {
+			c.Failf("C17/journal-bytes/write-outside", "while rolling back a %d-byte journal LiteFS wrote page %d; the database never had more than %d pages (SQLite ignores journal records past the original size)", len(journal), maxPgno, bound/int64(p.PageSize))
 		}
 		if after.Size() > bound {
 			c.Failf("C17/journal-bytes/write-outside", "database file grew from %d to %d bytes (bound %d) while rolling back a %d-byte journal", oldSize, after.Size(), bound, len(journal))
